@@ -82,8 +82,11 @@ def run(ctx):
     if reg is None:
         return
     ctx.log("registry: %d codes (%d unknown)" % (len(reg), sum(1 for r in reg if not r["known"])))
-    ctx.tlc_mc("CidPolicy", "GenCidPolicy.tla", "MCCidPolicy.cfg", timeout=300, coverage=False)
-    cases = ctx.tlc_gen("CidPolicy", "GenCidPolicy.tla", "GenCidPolicy.cfg", timeout=600)
+    # M and G in one TLC run: GenCidPolicy.cfg lists the rule's meta-properties next to Emit (a violated
+    # invariant makes tlc_gen report the run as broken); the thorough tier also runs M on its own
+    if not ctx.quick:
+        ctx.tlc_mc("CidPolicy", "GenCidPolicy.tla", "MCCidPolicy.cfg", timeout=900, coverage=False)
+    cases = ctx.tlc_gen("CidPolicy", "GenCidPolicy.tla", "GenCidPolicy.cfg", timeout=900)
     if len(cases) != 10 * len(reg):
         ctx.broken("expected %d validator cases, TLC printed %d" % (10 * len(reg), len(cases)))
         return
@@ -93,9 +96,115 @@ def run(ctx):
         return
     ctx.cov["exhaustive"] = True
     # ---- block service half ---------------------------------------------------------------
-    from importlib import util as _u
-    run_blockservice(ctx)
+    run_blockservice(ctx, "C04", reg_recs=reg)
 
 
-def run_blockservice(ctx):
-    pass
+# =================================================================== shared by C04 and C05
+BS_FILES = ["blockservice/zz_verif_C04_test.go", "blockservice/zz_verif_C05_test.go"]
+
+
+def prepare_blockservice_spec(ctx, reg_recs=None):
+    d = link_policy(ctx, "BlockService")
+    if reg_recs:
+        open(os.path.join(d, "CidRegistry.tla"), "w").write(registry_tla(reg_recs))
+    return d
+
+
+def strip_done(ctx, recs, out, rc, what):
+    """the driver ends its log with {"ev":"Done"}: a log without it is a dead driver, not a verdict"""
+    if rc != 0 or not recs or recs[-1].get("ev") != "Done":
+        ctx.broken("%s driver died or was incomplete (rc=%s): %s" % (what, rc, out[-1500:]))
+        return None
+    return recs[:-1]
+
+
+NEG_PREFIX = 2500    # the control only needs a prefix of the trace: corrupt an event in it, keep a short tail
+
+
+def _neg(recs, ev, mutate):
+    idx = [i for i, r in enumerate(recs[:NEG_PREFIX]) if r["ev"] == ev]
+    if not idx:
+        return None, None
+    i = idx[(2 * len(idx)) // 3]
+    bad = [dict(r) for r in recs[:i + 150]]
+    mutate(bad[i])
+    return bad, i
+
+
+def neg_flip_lookup(recs):
+    """binding control: flip the logged result of one blockstore lookup"""
+    def m(r):
+        r["found"] = not r["found"]
+        r["ok"] = r["found"]
+    return _neg(recs, "BsGet", m)
+
+
+def neg_flip_inlocal(recs):
+    """binding control: claim that a block handed to the caller was not in the store"""
+    def m(r):
+        r["inlocal"] = not r["inlocal"]
+    return _neg(recs, "Recv", m)
+
+
+def count_resets(recs):
+    return sum(1 for r in recs if r["ev"] == "Reset")
+
+
+def run_blockservice(ctx, pid, reg_recs=None):
+    spec = "BlockService"
+    prepare_blockservice_spec(ctx, reg_recs)
+    # ---- M
+    ctx.tlc_mc(spec, "MCBlockService.tla", "MCBlockService.cfg", timeout=900, coverage=not ctx.quick,
+               allow_zero=("DevCachePut",))
+    if not ctx.quick:
+        for cfg in ("MCBlockService3.cfg", "MCBlockServiceSeq.cfg", "MCBlockServiceConc.cfg"):
+            ctx.tlc_mc(spec, "MCBlockService.tla", cfg, timeout=3000)
+    if pid == "C05" and not ctx.quick:
+        # the model predicts the recorded defect: with the as-built deviations enabled the (unguarded) property fails
+        r = ctx.tlc_mc(spec, "MCBlockService.tla", "MCBlockServiceDev.cfg", timeout=900, expect_violation=True)
+        if r["violated"] != "P_OnlyRequested":
+            ctx.broken("as-built deviation model: expected P_OnlyRequested to fail, got %s" % r["violated"])
+    # ---- G: TLC-generated scenarios, executed and recorded, validated by the trace spec
+    gen = "GenBlockService%s%s.cfg" % (pid, "Q" if ctx.quick else "")
+    scns = ctx.tlc_gen(spec, "GenBlockService.tla", gen, timeout=3000)
+    if not scns:
+        return
+    binp = ctx.go_build("blockservice", BS_FILES)
+    test = "TestVerif" + pid
+    inp = ctx.write_ndjson("scenarios_%s.ndjson" % pid, scns)
+    recs, out, rc = ctx.go_run(binp, test, pkg="blockservice", infile=inp, mode="scenario", timeout=1800)
+    recs = strip_done(ctx, recs, out, rc, "scenario")
+    if recs is None:
+        return
+    if count_resets(recs) != len(scns):
+        ctx.broken("scenario driver ran %d of %d scenarios" % (count_resets(recs), len(scns)))
+        return
+    for sc in scns:
+        if pid == "C04":
+            ops = sc["ops"]
+            cids = [tuple(c) for o in ops for c in o["ks"]] + [tuple(b["c"]) for o in ops for b in o["bs"]]
+            if len({k for k, _ in cids}) > 1:           # batch mixes an accepted and a rejected kind
+                ctx.nontrivial(sc)
+        else:
+            o = sc["ops"][0]
+            req = {tuple(c) for c in o["ks"]}
+            loc = {tuple(b["c"]) for b in sc["pre"]}
+            if (req - loc) and any((tuple(b["c"]) not in req - loc) or not b["ok"] for b in o["script"]["dl"]):
+                ctx.nontrivial(sc)                      # a miss and at least one delivery that must not be handed on
+    ctx.sample(scns[len(scns) // 3])
+    # ---- T: concurrent recorded histories
+    rrecs, out, rc = ctx.go_run(binp, test, pkg="blockservice", mode="record", timeout=900,
+                                env={"VERIF_INVALID_PCT": 35 if pid == "C04" else 8})
+    rrecs = strip_done(ctx, rrecs, out, rc, "record")
+    if rrecs is None:
+        return
+    negs = (neg_flip_lookup, neg_flip_inlocal) if pid == "C04" else (neg_flip_inlocal, neg_flip_lookup)
+    if ctx.quick:
+        # one TLC run for both logs (runs are Reset-separated anyway): the JVM start dominates the quick tier
+        ctx.validate_trace(spec, "TraceBlockService.tla", "TraceBlockService.cfg", rrecs + recs, name="recorded+scenarios",
+                           timeout=3000, count_runs=count_resets, negative=negs[0])
+    else:
+        ctx.validate_trace(spec, "TraceBlockService.tla", "TraceBlockService.cfg", recs, name="scenarios",
+                           timeout=6000, count_runs=count_resets, negative=negs[0])
+        ctx.validate_trace(spec, "TraceBlockService.tla", "TraceBlockService.cfg", rrecs, name="recorded",
+                           timeout=3000, count_runs=count_resets, negative=negs[1])
